@@ -36,15 +36,23 @@ LEVEL_TEXT = "Seeded exploration; (a) every step of every run checked, (b) 10^4-
 LEVEL_NOTE = "float64 CPU; (b) uses the smallest domains that contain the grid Nyquist mode; single-pole media in (b)"
 
 
+def _axes(v):
+    return [float(x) for x in v] if isinstance(v, (list, tuple)) else [float(v)] * 3
+
+
 def _stability_lhs_rhs(pole, eps_inf, S):
+    """Worst axis of the Nyquist-mode criterion (per-axis poles: each field component has its own pole parameters)."""
     rhs = 4.0 * (1.0 - S * S)
     if pole["kind"] == "drude":
-        return pole["wp_dt"] ** 2 / eps_inf, rhs
-    return pole["w0_dt"] ** 2 * (1.0 + pole["deps"] / eps_inf - S * S), rhs
+        return max(w * w / eps_inf for w in _axes(pole["wp_dt"])), rhs
+    return max(w * w * (1.0 + d / eps_inf - S * S) for w, d in zip(_axes(pole["w0_dt"]), _axes(pole["deps"]))), rhs
 
 
 def _predicted_unstable(spec, violation):
     if spec.get("mode") != "bounded" or violation.get("monitor") != "passive_medium_grows":
+        return False
+    # the library itself refuses w0*dt >= 2 at placement: a medium of that kind that *runs* was accepted by something new
+    if spec["pole"]["kind"] == "lorentz" and max(_axes(spec["pole"]["w0_dt"])) >= 2.0:
         return False
     lhs, rhs = _stability_lhs_rhs(spec["pole"], spec["eps_inf"], spec["courant"])
     return lhs > 0.8 * rhs
@@ -69,6 +77,12 @@ def generate(rng, tier, index):
                     break
                 k = "wp_dt" if pole["kind"] == "drude" else "w0_dt"
                 pole[k] *= 0.8
+        if rng.uniform() < 0.3:  # diagonally anisotropic pole: per-axis parameters around the drawn ones
+            for k in [k for k in ("wp_dt", "w0_dt", "gamma_dt", "deps") if k in pole]:
+                pole[k] = [float(pole[k] * f) for f in rng.uniform(0.6, 1.0, size=3)]
+            if pole["kind"] == "lorentz" and rng.uniform() < 0.35:
+                # one axis beyond the documented acceptance bound w0*dt < 2: placement must refuse the medium
+                pole["w0_dt"][int(rng.integers(0, 3))] = float(rng.uniform(2.02, 2.6))
         n = int(specgen.choice(rng, [4, 6]))
         return {"mode": "bounded", "n": n, "courant": S, "eps_inf": eps_inf, "pole": pole, "boxed": bool(rng.uniform() < 0.3), "steps": 10000 if tier == "thorough" or True else 3000, "init_seed": int(rng.integers(0, 2**31))}
     spec = specgen.rand_scene(rng, T=(6, 12), shape=(4, 8), pml=(2, 3), p_nonuniform=0.3, tiers=("iso", "diag"), sigma_e=True, mu=False, dispersive=True, n_sources=(0, 1), source_kinds=("dipole",), n_detectors=(0, 0))
@@ -83,6 +97,8 @@ def generate(rng, tier, index):
         bg = {"permittivity": float(rng.uniform(1.0, 3.0))}
         if rng.uniform() < 0.3:
             bg["dispersion"] = specgen.rand_dispersion(rng, n_poles=1)
+        elif rng.uniform() < 0.6:
+            bg["electric_conductivity"] = float(rng.uniform(0.01, 0.2))  # conductive cells with all-zero pole coefficients
         spec["materials"] = {"mode": "objects", "objects": objs, "background": bg}
     spec["mode"] = "recurrence"
     spec["init_seed"] = int(rng.integers(0, 2**31))
@@ -176,11 +192,14 @@ def _bounded(spec):
     S, n, T = spec["courant"], spec["n"], spec["steps"]
     dt = S / np.sqrt(3) * specgen.SPACING / 299792458.0
     p = spec["pole"]
-    pole = {"kind": p["kind"], "gamma": p["gamma_dt"] / dt}
+    def per_dt(v):
+        return [x / dt for x in v] if isinstance(v, list) else v / dt
+
+    pole = {"kind": p["kind"], "gamma": per_dt(p["gamma_dt"])}
     if p["kind"] == "drude":
-        pole["wp"] = p["wp_dt"] / dt
+        pole["wp"] = per_dt(p["wp_dt"])
     else:
-        pole["w0"], pole["deps"] = p["w0_dt"] / dt, p["deps"]
+        pole["w0"], pole["deps"] = per_dt(p["w0_dt"]), p["deps"]
     med = {"permittivity": spec["eps_inf"], "dispersion": {"poles": [pole]}}
     mats = {"mode": "objects", "objects": [], "background": med}
     if spec["boxed"]:
@@ -198,7 +217,8 @@ def _bounded(spec):
             try:
                 scn = sc.build_scene(sspec)
             except (ValueError, NotImplementedError) as e:
-                return {"rejected": True, "nontrivial": False, "stats": {"rejected_by_exception": 1}, "digest": "rejected:" + type(e).__name__}
+                beyond = p["kind"] == "lorentz" and max(_axes(p["w0_dt"])) >= 2.0
+                return {"rejected": True, "nontrivial": False, "stats": {"rejected_by_exception": 1, "probe_refused_w0dt_ge_2": int(beyond)}, "digest": "rejected:" + type(e).__name__}
     finally:
         logger.remove(hid)
     own = [w for w in wlist if "fdtdx" in str(getattr(w, "filename", ""))]
@@ -222,8 +242,9 @@ def _bounded(spec):
         viol.append({"monitor": "passive_medium_grows", "metric": "max U / U0", "value": min(growth, 1e300), "tolerance": 10.0, "first_step_above": first, "pole": p, "eps_inf": spec["eps_inf"], "courant": S, "criterion_lhs_over_rhs": lhs / rhs})
     stats["probe_" + p["kind"]] = 1
     stats["probe_predicted_stable"] = int(lhs <= 0.8 * rhs)
-    stats["probe_lossless"] = int(p["gamma_dt"] == 0.0)
-    sig = specgen.signature("bounded", p["kind"], S, n, spec["boxed"], int(np.clip(np.log2(max(lhs / rhs, 1e-6)), -6, 6)), p["gamma_dt"] == 0.0)
+    stats["probe_lossless"] = int(max(_axes(p["gamma_dt"])) == 0.0)
+    stats["probe_per_axis_pole_bounded"] = int(isinstance(p["gamma_dt"], list))
+    sig = specgen.signature("bounded", p["kind"], S, n, spec["boxed"], int(np.clip(np.log2(max(lhs / rhs, 1e-6)), -6, 6)), max(_axes(p["gamma_dt"])) == 0.0, isinstance(p["gamma_dt"], list))
     digest = f"{dr.sig3(u0)}:{dr.sig3(min(growth, 1e300))}:v{len(viol)}"
     return {"violations": viol, "stats": stats, "residuals": resid, "nontrivial": bool(u0 > 0), "signature": sig, "digest": digest}
 
